@@ -1,8 +1,8 @@
-(* C26 - binary XML is converted to the XML tree it encodes.  Statements only; proofs in Axml/AxmlProofs.v.
-   The theorems are about the tree construction and the cleaning of names and values; the byte layers (chunk headers,
-   string pool, chunk loop) are part of the model and are compared with the code on every run. *)
+(* C26 - binary XML is converted to the XML tree it encodes.  Statements only; proofs in Axml/AxmlProofs.v (tree,
+   names, values), Axml/PoolProofs.v (string pool), Axml/AxmlChunks.v (one chunk), Axml/AxmlDocument.v (sequences of
+   chunks, the loop, whole documents). *)
 From Coq Require Import ZArith List Bool.
-Require Import V.Lib.Val V.Lib.Result V.Axml.PoolModel V.Axml.AxmlModel V.Axml.AxmlProofs V.Axml.PoolProofs V.Axml.AxmlChunks.
+Require Import V.Lib.Val V.Lib.Result V.Axml.PoolModel V.Axml.AxmlModel V.Axml.AxmlProofs V.Axml.PoolProofs V.Axml.AxmlChunks V.Axml.AxmlDocument.
 Import ListNotations.
 Open Scope Z_scope.
 Import ListNotations.
@@ -95,3 +95,53 @@ Example C26_nonvacuous :
   flatten a = [TStart [97] [] []; TText [102; 111; 111]; TStart [98] [] []; TText []; TEnd; TText [98; 97; 114];
                TStart [99] [] []; TText [105; 110]; TEnd; TText [116; 97; 105; 108]; TEnd].
 Proof. split; reflexivity. Qed.
+
+(* ---- whole documents ---- *)
+(* one call of _do_next on ANY sequence of well-formed chunks (namespace starts and ends, resource maps, element starts
+   with their attribute records, element ends, texts) standing anywhere in a buffer: it passes over the chunks that only
+   change the state, applying each change in order, stops at the first chunk that is an event and returns exactly that
+   event, standing at the end of that chunk; behind the last chunk it reports the end of the document *)
+Theorem C26_chunk_sequences_are_decoded : forall items pre rest ns res fuel fs,
+  Forall wf_item items -> (length items < fuel)%nat -> fs = len pre + len (encode_items items) ->
+  do_next fuel (pre ++ encode_items items ++ rest) fs (st_at (len pre) ns res) =
+  match next_event items ns res with
+  | Some (e, rem, ns', res') => Ok (Some e, st_at (fs - len (encode_items rem)) ns' res')
+  | None => Ok (None, st_at fs (fst (final items ns res)) (snd (final items ns res)))
+  end.
+Proof. exact do_next_items. Qed.
+Print Assumptions C26_chunk_sequences_are_decoded.
+(* the loop of AXMLPrinter.__init__ over such a body is the fold of its step over the events the chunks stand for, in the
+   order of the file, each with the resource map as it is at that chunk *)
+Theorem C26_the_loop_folds_over_the_events : forall p sysattr fuel items pre rest ns res t fs,
+  Forall wf_item items -> fs = len pre + len (encode_items items) -> (length (events items ns res) < fuel)%nat ->
+  run_doc fuel p sysattr (pre ++ encode_items items ++ rest) fs (st_at (len pre) ns res) t = fold_on p sysattr (events items ns res) t.
+Proof. exact run_doc_items. Qed.
+Print Assumptions C26_the_loop_folds_over_the_events.
+(* the complete parser on the bytes of a document - file header, string pool chunk (UTF-16 or UTF-8, any strings), any
+   sequence of well-formed chunks: when the events of the chunks, their strings resolved through that pool with the
+   namespace list and resource map of that moment, are the document-order events of a tree x, the parser returns x *)
+Theorem C26_whole_document_is_parsed : forall (utf8_flag : bool) ss padding items sysattr x,
+  Forall wf_item items ->
+  28 + 4 * Z.of_nat (length ss) + len (concat (map (if utf8_flag then entry8 else entry16) ss)) < 4294967296 ->
+  len (doc_bytes utf8_flag ss padding items) < 4294967296 ->
+  tail_of x = [] ->
+  Forall2 (fun er te => resolve (pool_of utf8_flag ss padding) sysattr (snd er) (fst er) false = Ok te) (events items [] []) (flatten x) ->
+  parse_axml sysattr (doc_bytes utf8_flag ss padding items) = Ok (Some x).
+Proof. exact document_is_parsed. Qed.
+Print Assumptions C26_whole_document_is_parsed.
+(* end to end, without any hypothesis about the model, for a class of documents: every element tree without attributes
+   and namespaces - any shape and depth, any texts before, between and after the children, names that are XML names as
+   they stand, either pool encoding - written as header, pool and chunks is parsed to exactly that tree *)
+Theorem C26_plain_documents_round_trip : forall (utf8_flag : bool) ss padding sysattr,
+  Forall (fits utf8_flag) ss -> Z.of_nat (length ss) < NONE -> forall t, wf_ptree ss t -> ptail t = NONE ->
+  28 + 4 * Z.of_nat (length ss) + len (concat (map (if utf8_flag then entry8 else entry16) ss)) < 4294967296 ->
+  len (doc_bytes utf8_flag ss padding (items_of t)) < 4294967296 ->
+  parse_axml sysattr (doc_bytes utf8_flag ss padding (items_of t)) = Ok (Some (tree_of ss t)).
+Proof. exact plain_document_round_trip. Qed.
+Print Assumptions C26_plain_documents_round_trip.
+(* <a>foo<b/>bar</a>, pool ["a"; "b"; "foo"; "bar"] in UTF-8 with two bytes of padding: the hypotheses hold *)
+Example C26_plain_nonvacuous :
+  wf_ptree ex_ss ex_ptree /\ Forall (fits true) ex_ss /\
+  tree_of ex_ss ex_ptree = El [97] [] [] [102; 111; 111] [El [98] [] [] [] [] [98; 97; 114]] [] /\
+  parse_axml [] (doc_bytes true ex_ss [0; 0] (items_of ex_ptree)) = Ok (Some (tree_of ex_ss ex_ptree)).
+Proof. exact plain_example. Qed.
